@@ -46,7 +46,7 @@ def equivalent_x0(rng, sps, x0):
 def check(run):
     rng = random.Random(run.seed)
     thorough = run.tier == "thorough"
-    n = 400 if thorough else 50
+    n = 400 if thorough else 36
     run.cov["rule"] = ("pairs (x0, x0') with proportional element totals — a positive multiple, any x0 of a single-element set, or part of a molecule's "
                        "abundance moved to its constituent atoms — on shipped and synthetic species sets; composition (species of mole fraction x>1e-7 to 1e-6+1e-10/x), species "
                        "enthalpies and the seven scalar outputs (1e-5; Cp and thermal conductivity 1e-4; electrical conductivity only above x_e=1e-7; emission only when carried by resolved species) compared when both runs converge; "
@@ -65,7 +65,7 @@ def check(run):
         broken.append({"stage": "proof", "detail": res["error"]})
         run.note(f"proof obligation failed: {res['error']}")
     found, hist = None, {}
-    kinds = ["oxy", "oxy", "sico", "synth1", "synth2"]
+    kinds = ["oxy", "oxy", "oxy", "sico", "synth1", "synth1", "synth2", "synth2", "synth2"]
     for sps, x0, T, P, kind in sc.cases(rng, n, Trange=(1000.0, 25000.0), Prange=(1e4, 1e6), kinds=kinds):
         if kind == "oxy":            # documented order converges reliably
             sps, x0 = [gen.shipped(nm) for nm in gen.OXY], rng.choice([[1, 0, 0, 0, 0, 0], [0.2, 0, 0.8, 0, 0, 0], [0, 0, 1, 0, 0, 0]])
